@@ -127,6 +127,24 @@ theorem registry_get_stable (defn : N → Option P) (closure : N → List N) (re
     (regGet defn closure reg n).1 = (regGet defn closure reg' n).1 := by
   rw [(registry_get_independent defn closure reg n h).1, (registry_get_independent defn closure reg' n h').1]
 
+/-- **`plugins.exists` is a pure question.**  It answers whether the source defines the plug-in and
+leaves the registry sound — in particular a name that is not a plug-in leaves no entry behind. -/
+theorem registry_exists_sound (defn : N → Option P) (closure : N → List N) (reg : List (N × P))
+    (n : N) (h : RegSound defn reg) :
+    (regExists defn closure reg n).1 = (defn n).isSome ∧ RegSound defn (regExists defn closure reg n).2 := by
+  have := registry_get_independent defn closure reg n h
+  exact ⟨by simp [regExists, this.1], this.2⟩
+
+/-- **Every listed name resolves**, after any history of `get`/`load`/`exists` questions (all of
+which keep the registry sound): a name `names()` lists — a key of the registry — is found by `get`. -/
+theorem registry_listed_resolve (defn : N → Option P) (closure : N → List N) (reg : List (N × P))
+    (h : RegSound defn reg) : ∀ k ∈ regKeys reg, (regGet defn closure reg k).1.isSome = true := by
+  intro k hk
+  simp only [regKeys, List.mem_map] at hk
+  obtain ⟨⟨k', v⟩, hmem, rfl⟩ := hk
+  rw [(registry_get_independent defn closure reg k' h).1, h (k', v) hmem]
+  rfl
+
 end registry
 
 /-! ### The function-level list of `parser_cache` -/
@@ -230,6 +248,8 @@ end Midgard.Props.C16
 #print axioms Midgard.Props.C16.memo_evict_sound
 #print axioms Midgard.Props.C16.registry_get_independent
 #print axioms Midgard.Props.C16.registry_get_stable
+#print axioms Midgard.Props.C16.registry_exists_sound
+#print axioms Midgard.Props.C16.registry_listed_resolve
 #print axioms Midgard.Props.C16.parser_cache_irrelevant_partial
 #print axioms Midgard.Props.C16.parser_cache_leak_witness
 #print axioms Midgard.Props.C16.parser_cache_local
